@@ -232,4 +232,8 @@ pub fn run(ctx: &Ctx) {
     ctx.require_class("history", "overestimate_observed", 0.2);
     ctx.require_class("history", "merge_then_add", 0.2);
     ctx.require_class("history", "w!=d", 0.6);
+    if ctx.tier == Tier::Thorough && !ctx.failed() {
+        // coverage-guided search over the same case space (libFuzzer, 8 parallel campaigns)
+        crate::engine::fuzz::run_sketch_ops(ctx, 0, 480_000);
+    }
 }
